@@ -54,6 +54,9 @@ type Recorder struct {
 	Bad     []string // C10(a): payloads that are not exactly one JSON event line
 	FailAt  int      // fail the k-th write from now (1-based), 0 = never
 	nwrites int
+	// NoPoints: writes are no scheduling points (programs with thousands of writes, whose lock
+	// acquisitions are the steps of interest)
+	NoPoints bool
 }
 
 var errInjected = fmt.Errorf("injected write failure")
@@ -64,7 +67,9 @@ func identityOf(e *auditevent.AuditEvent) string {
 }
 
 func (r *Recorder) Write(p []byte) (int, error) {
-	vsync.Point(r, "WriteEvent") // under the scheduler every output write is a visible step
+	if !r.NoPoints {
+		vsync.Point(r, "WriteEvent") // under the scheduler every output write is a visible step
+	}
 	r.mu.Lock()
 	defer r.mu.Unlock()
 	r.nwrites++
@@ -112,6 +117,7 @@ type SessDef struct {
 	ID     string // session id ("" and "unset" allowed)
 	PID    string // process id printed in its LOGIN record
 	Events []auparse.AuditMessageType
+	Live   bool // record timestamps lie a few seconds before the wall clock (a live stream) instead of in 2023
 }
 
 // LoginDef is one SSH login.
@@ -211,8 +217,14 @@ func NewWorld(sess []SessDef, logins []LoginDef) *World {
 					data["old-ses"] = sess[(si+len(sess)-1)%len(sess)].ID
 				}
 			}
+			ts := base.Add(time.Duration(stamp) * time.Second)
+			if sd.Live {
+				// a live stream: the kernel logged the record 21-30 s ago (the time it spent in the pipe and in the
+				// reassembler). A session's age counts from when the tracker saw it, not from the record's own time
+				ts = time.Now().Add(-30 * time.Second).Add(time.Duration(stamp-si*100) * 100 * time.Millisecond)
+			}
 			e := &aucoalesce.Event{
-				Timestamp: base.Add(time.Duration(stamp) * time.Second),
+				Timestamp: ts,
 				Sequence:  uint32(stamp),
 				Data:      data,
 				Type:      typ,
